@@ -23,6 +23,7 @@ mod rand;
 mod color;
 mod xform;
 mod angle;
+mod spline;
 
 use std::io::{BufRead, BufWriter, Write};
 
@@ -74,6 +75,7 @@ fn subsystem(name: &str) -> Option<(GenFn, ExecFn)> {
         "color" => (color::gen, color::exec),
         "xform" => (xform::gen, xform::exec),
         "angle" => (angle::gen, angle::exec),
+        "spline" => (spline::gen, spline::exec),
         _ => return None,
     })
 }
